@@ -281,6 +281,16 @@ impl Property for C15 {
                         let maxd = total * frac;
                         let tol = 1e-3 + 1e-9 * total;
                         let check = |inp: &LineString<f64>, out: &LineString<f64>, what: &str, o: &mut Obs| {
+                            // rhumb lines that are nearly, but not exactly, east-west are ill-conditioned (q = dphi / dpsi of two
+                            // tiny numbers, relative error about ulp / dpsi - the band C16 leaves out as well): distances along
+                            // such a segment are not asserted
+                            if $name == "Rhumb" {
+                                let psi = |lat: f64| (std::f64::consts::FRAC_PI_4 + lat.to_radians() / 2.0).tan().ln();
+                                if inp.0.windows(2).any(|w| w[0].y != w[1].y && (psi(w[0].y) - psi(w[1].y)).abs() < 1e-6) {
+                                    o.label("densify(Rhumb):ill-conditioned-band-not-asserted");
+                                    return;
+                                }
+                            }
                             let gap = out.0.windows(2).map(|w| d(w[0], w[1])).fold(0.0, f64::max);
                             o.expect(gap <= maxd * (1.0 + 1e-9) + tol, &format!("densify({})|{what}|segment-longer-than-max", $name), || format!("largest {gap} > {maxd}; in {:?}", inp.0));
                             // original vertices, in order
